@@ -288,6 +288,34 @@ Theorem C14_psum_trace_final : forall {K} (O : Ops K) (l : list sstep) (a : psum
 Proof. exact @psum_trace_final. Qed.
 Print Assumptions C14_psum_trace_final.
 
+(* ---- the default register of a sum (PauliSum.qubits; used by matrix(), sparse_matrix(), with_qubits, PauliSumExponential
+   when no qubits are given): strictly increasing, exactly the qubits of the terms, wide enough for every term; the product
+   of two sums taken on the qubits of both operands is the product of the matrices ---- *)
+Theorem C14_psum_support_sorted : forall {K} (s : psum (K:=K)), Sorted.Sorted Z.lt (psum_support s).
+Proof. exact @psum_support_sorted. Qed.
+Print Assumptions C14_psum_support_sorted.
+
+Theorem C14_psum_support_nodup : forall {K} (s : psum (K:=K)), NoDup (psum_support s).
+Proof. exact @psum_support_nodup. Qed.
+Print Assumptions C14_psum_support_nodup.
+
+Theorem C14_psum_support_in : forall {K} (s : psum (K:=K)) q,
+  In q (psum_support s) <-> exists e, In e s /\ In q (pm_keys (fst e)).
+Proof. exact @psum_support_in. Qed.
+Print Assumptions C14_psum_support_in.
+
+Theorem C14_psum_support_ok : forall {K} (s : psum (K:=K)),
+  Forall (fun e => NoDup (pm_keys (fst e))) s -> psum_ok (psum_support s) s.
+Proof. exact @psum_support_ok. Qed.
+Print Assumptions C14_psum_support_ok.
+
+Theorem C14_psum_mul_on_support : forall {K} (O : Ops K), PLaws O -> forall a b : psum (K:=K),
+  Forall (fun e => NoDup (pm_keys (fst e))) (a ++ b) ->
+  psum_matrix O (psum_support (a ++ b)) (psum_mul O a b)
+  = mmul O (psum_matrix O (psum_support (a ++ b)) a) (psum_matrix O (psum_support (a ++ b)) b).
+Proof. exact @psum_mul_on_support. Qed.
+Print Assumptions C14_psum_mul_on_support.
+
 (* the exact instance the correspondence run evaluates satisfies the hypotheses of every theorem above *)
 Theorem C14_GQ_PLaws : PLaws GQOps.
 Proof. exact GQ_PLaws. Qed.
@@ -327,3 +355,11 @@ Example C14_ex_ds_history :
   /\ (exists r, ds_step GQOps (mkD (gq 1 1 0 1) [pX; pY]) (DSlice 0 [pZ; pZ]) = Some r)
   /\ forallb (slinear (K:=GQ)) [SAdd []; SScale (gq 2 1 0 1)] = true.
 Proof. vm_compute. repeat split; eexists; reflexivity. Qed.
+(* (X0 + Z0) *= Y1: the hypothesis of C14_psum_mul_on_support holds, the product reports both qubits, and a term whose
+   coefficient cancelled no longer counts *)
+Example C14_ex_psum_support :
+  Forall (fun e => NoDup (pm_keys (fst e)))
+         ([([(0, pX)], gq 1 1 0 1); ([(0, pZ)], gq 1 1 0 1)] ++ [([(1, pY)], gq 1 1 0 1)])%Z
+  /\ psum_qubitsG (psum_mul GQOps [([(0, pX)], gq 1 1 0 1); ([(0, pZ)], gq 1 1 0 1)] [([(1, pY)], gq 1 1 0 1)])%Z = [0; 1]%Z
+  /\ psum_qubitsG (psum_sub GQOps [([(0, pX)], gq 1 1 0 1); ([(1, pZ)], gq 1 1 0 1)] [([(1, pZ)], gq 1 1 0 1)])%Z = [0]%Z.
+Proof. split; [repeat constructor; simpl; intuition discriminate|split; vm_compute; reflexivity]. Qed.
